@@ -1,6 +1,6 @@
 (* C08: proofs about the msp_sequence model (Algo/Msp.v) on top of the scanner theorems of C07. *)
 From Coq Require Import NArith List Bool Arith Lia.
-From DBG Require Import Spec.Dna Spec.ScanSpec Algo.Scan Algo.Msp Proofs.ListFacts Proofs.KmerLanes Proofs.ScanProofs.
+From DBG Require Import Gen.SourceConsts Spec.Dna Spec.ScanSpec Algo.Scan Algo.Msp Proofs.ListFacts Proofs.KmerLanes Proofs.ScanProofs.
 Import ListNotations.
 Open Scope nat_scope.
 
@@ -78,7 +78,7 @@ Proof.
 Qed.
 
 Lemma shard_spec (score : dna -> N) p x : p <= length x ->
-  exists a, shard_of score p x = (rank (canon a) mod 2 ^ 32)%N /\ In a (kmers p x) /\
+  exists a, shard_of score p x = rank (canon a) /\ In a (kmers p x) /\
             forall z, In z (kmers p x) -> (score a <= score z)%N.
 Proof.
   intro H. unfold shard_of. destruct (kmers p x) as [|y r] eqn:E.
@@ -136,10 +136,10 @@ Section Shard.
   (* any score-minimal p-mer of x determines the shard of x *)
   Lemma shard_of_minimal x mz : 1 <= p -> p <= length x -> wf_dna x ->
     In mz (kmers p x) -> (forall z, In z (kmers p x) -> (score mz <= score z)%N) ->
-    (rank (canon mz) mod 2 ^ 32)%N = shard_of score p x.
+    rank (canon mz) = shard_of score p x.
   Proof.
     intros Hp Hx W I M. destruct (shard_spec score p x Hx) as [a [E [Ia Ma]]]. rewrite E.
-    f_equal. f_equal. apply score_tie.
+    f_equal. apply score_tie.
     - apply in_kmers in I as [j [Hj ->]]. now apply sub_length.
     - apply in_kmers in Ia as [j [Hj ->]]. now apply sub_length.
     - apply in_kmers in I as [j [Hj ->]]. now apply wf_dna_sub.
@@ -174,7 +174,7 @@ End Shard.
 Lemma from_slice_bounds_flank sq st ln : wf_dna sq -> from_slice_bounds sq st ln = flank_exts sq st ln.
 Proof.
   intro W. unfold from_slice_bounds, flank_exts.
-  assert (E : forall b, (b < 4)%N -> ((2 ^ b * 16) mod 256 = 16 * 2 ^ b)%N).
+  assert (E : forall b, (b < 4)%N -> ((2 ^ b * 2 ^ msp_exts_shift) mod 256 = 16 * 2 ^ b)%N).
   { intros b Hb. assert (C : b = 0%N \/ b = 1%N \/ b = 2%N \/ b = 3%N) by lia.
     destruct C as [ -> | [ -> | [ -> | -> ] ] ]; reflexivity. }
   destruct (st + ln <? length sq).
@@ -191,8 +191,8 @@ Section MspSequence.
   Hypothesis Hp : 1 <= p.
   Hypothesis Hpk : p <= k.
   Hypothesis Hkm : k <= length sq.
-  Hypothesis H32 : (N.of_nat (length sq) < 2 ^ 32)%N.
-  Hypothesis H16 : (N.of_nat (2 * k - p) < 2 ^ 16)%N.
+  Hypothesis H32 : (N.of_nat (length sq) < 2 ^ msp_assert_shift)%N.
+  Hypothesis H16 : (N.of_nat (2 * k - p) < 2 ^ msp_len_bits)%N.
   Hypothesis Hmax : (N.of_nat (2 * k - p) <= max_len)%N.
   Hypothesis Wsq : wf_dna sq.
 
@@ -220,7 +220,7 @@ Section MspSequence.
         let st := s_start (iv_nat x) in
         let ln := s_len (iv_nat x) in
         st + ln <= length sq /\
-        msp_piece sq x = ((bucket_of (iv_minimizer x) mod 2 ^ 32)%N, flank_exts sq st ln, sub st ln sq) /\
+        msp_piece sq x = ((bucket_of (iv_minimizer x) mod 2 ^ msp_bucket_bits)%N, flank_exts sq st ln, sub st ln sq) /\
         length (sub st ln sq) = ln.
   Proof.
     destruct msp_sequence_scan as [ivs [E [M [OK C]]]]. exists ivs. split; [exact M|]. split; [exact OK|].
@@ -239,7 +239,7 @@ Section MspSequence.
     exists ivs, msp_sequence max_len sq k p perm rcmode = Some (map (msp_piece sq) ivs) /\
       covered_once sq k (map iv_nat ivs) /\
       forall x, In x ivs -> forall i, kmer_in k (iv_nat x) i ->
-        fst (fst (msp_piece sq x)) = shard_of score p (kmer_at k sq i).
+        fst (fst (msp_piece sq x)) = (shard_of score p (kmer_at k sq i) mod 2 ^ msp_bucket_bits)%N.
   Proof.
     intro Hperm. destruct msp_sequence_scan as [ivs [E [M [OK C]]]]. exists ivs. split; [exact M|].
     split; [exact C|]. intros x Hx i Hi.
@@ -253,7 +253,7 @@ Section MspSequence.
     assert (Lkx : length kx = k) by (apply sub_length; lia).
     unfold msp_piece. cbn [fst]. unfold bucket_of.
     change (iv_minimizer x) with (s_min (iv_nat x)).
-    apply (shard_of_minimal p perm rcmode Hperm kx); try lia.
+    f_equal. apply (shard_of_minimal p perm rcmode Hperm kx); try lia.
     - now apply wf_dna_sub.
     - apply in_kmers. exists (s_mpos (iv_nat x) - i). split; [lia|].
       rewrite Emin. unfold kx, kmer_at. rewrite sub_sub by lia. f_equal. lia.
